@@ -14,6 +14,7 @@
 class CasNum (α : Type) where
   ofInt     : Int → α                 -- integer-valued double constant
   ofDyadic  : Int → Int → α           -- m * 2^e : exact value of any other finite double
+  nonFinite : Int → α                 -- +inf (1), -inf (-1), nan (0): constant-folded x/0 in dead branches
   add  : α → α → α
   sub  : α → α → α
   mul  : α → α → α
@@ -84,6 +85,7 @@ end CasFloat
 instance : CasNum Float where
   ofInt n := Float.ofInt n
   ofDyadic := CasFloat.ofDyadic
+  nonFinite k := if k > 0 then 1.0 / 0.0 else if k < 0 then -1.0 / 0.0 else 0.0 / 0.0
   add := (· + ·)
   sub := (· - ·)
   mul := (· * ·)
